@@ -17,4 +17,7 @@ for o in c01 c02 c03 c04 c05 c06 c07 c08 c11 c12 c13 c14 c15 c16 c17 c18 c19 c20
   GOCOVERDIR=$OUT timeout 600 .work/bin/harness-cover oracle -name "$o" -n "$N" -out /dev/null >/dev/null 2>&1 || true
 done
 go1.26.8 tool covdata percent -i="$OUT" | grep -v verif/harness
+# per-function listing (functions below 100 %) in .work/cover-func.txt
+go1.26.8 tool covdata textfmt -i="$OUT" -o=.work/cover.txt
+(cd harness && go1.26.8 tool cover -func=../.work/cover.txt | grep -v 'verif/harness' | grep -v '100.0%' > ../.work/cover-func.txt) || true
 rm -r "$OUT"
